@@ -458,6 +458,67 @@ def c_km(ctx, case):
               atol=tol * 100 * spread**2 * (1 + kap))
 
 
+def g_km_gmm(draw):
+    c = gen.kmeans_data(draw, max_rows=24, min_rows=5)
+    r = gen.rng(draw)
+    X, k, scale = c["X"], c["k"], c["scale"]
+    F = X.shape[1]
+    if gen.boolean(draw):
+        # an isolated row: a cluster of its own
+        X = np.array(X, copy=True)
+        X[0] = X.mean(axis=0) + 40.0 * scale * r.choice([-1.0, 1.0], F)
+    idx = r.choice(X.shape[0], size=k, replace=X.shape[0] < k)
+    init = X[idx] + scale * r.normal(0, 0.05, (k, F))
+    if gen.boolean(draw):
+        init[0] = X[0]
+    return {"X": X, "k": k, "scale": scale, "kind": c["kind"], "init": init,
+            "s": float(10.0 ** draw(gen.st.floats(-2, 2))) * float(gen.choice(draw, [1.0, 1.0, -1.0])),
+            "t": scale * np.array([gen.choice(draw, [0.0, 1.0, -30.0, 500.0]) for _ in range(F)]),
+            "iters": gen.integer(draw, 0, 3), "floor_rel": gen.choice(draw, [1e-8, 1e-3]),
+            "dask": gen.boolean(draw), "chunks": gen.composition(draw, X.shape[0], max_parts=4)}
+
+
+@REG.obligation("kmeans_initialised_gmm_equivariant", g_km_gmm, quick=250, thorough=5000)
+def c_km_gmm(ctx, case):
+    """A GMM that takes its starting point from k-means (no training step) follows x -> s*x + t (one scale for all
+    features, since k-means itself is only equivariant under similarity transforms): means s*mu + t, variances
+    s^2*var (floors scaled alike), weights unchanged - also when a cluster holds a single row."""
+    from bob.learn.em import GMMMachine, KMeansMachine
+
+    X, k, s, t = case["X"], int(case["k"]), float(case["s"]), np.asarray(case["t"], float)
+    X2 = s * X + t[None, :]
+    init2 = s * np.asarray(case["init"], float) + t[None, :]
+    cent = np.array(case["init"], float)
+    for _ in range(int(case["iters"]) + 1):
+        new, counts, d, margin, lab = ref.kmeans_step(X, cent)
+        if margin < 1e-6:
+            ctx.discard("near-tie")
+        if (counts == 0).any():
+            ctx.discard("empty cluster")
+        cent = new
+    floor = float(case["floor_rel"]) * float(case["scale"]) ** 2
+
+    def start(A, ini, fl):
+        km = KMeansMachine(k, init_method=np.array(ini, copy=True), max_iter=int(case["iters"]), convergence_threshold=None)
+        g = GMMMachine(k, k_means_trainer=km, max_fitting_steps=0, convergence_threshold=None, mean_var_update_threshold=fl)
+        g.fit(sut.dask_rows(A, case["chunks"]) if case["dask"] else A)
+        return sut.params_of(g)
+
+    w1, m1, v1 = start(X, case["init"], floor)
+    w2, m2, v2 = start(X2, init2, floor * s * s)
+    spread = float(np.abs(X - X.mean(axis=0)).max()) + 1e-300
+    kap = float(np.abs(t).max() / (abs(s) * spread))
+    single = bool((np.bincount(lab, minlength=k) == 1).any())
+    ctx.note(k >= 2 and bool(np.abs(t).max() > 0), "single-row-cluster" if single else None, "dask" if case["dask"] else "numpy",
+             "negative-scale" if s < 0 else None)
+    tol = 1e-9 * (1 + kap) ** 2
+    ctx.close(w2, w1, "weights of the k-means-initialised GMM unchanged", rtol=1e-12, atol=1e-12)
+    ctx.close((m2 - t[None, :]) / s, m1, "means of the k-means-initialised GMM follow the features", rtol=0,
+              atol=tol * (spread + float(np.abs(X).max())))
+    ctx.close(v2 / (s * s), v1, "variances of the k-means-initialised GMM scale with s^2", rtol=1e-6 + tol,
+              atol=tol * spread * spread + 16 * X.shape[0] * EPS * float((X * X).max()) * (1 + kap) ** 2)
+
+
 # ---------------------------------------------------------------------------- ISV / JFA training
 
 def g_fa_train(draw):
